@@ -308,8 +308,12 @@ func (p *Program) solveOne(ob *Obligation, cfg SolverCfg, idx int) {
 	}
 	os.WriteFile(fz, []byte(sz), 0o644)
 	needCVC := true
-	if ob.Vacuity && cfg.TimeoutS > 3 {
-		cfg.TimeoutS = 3 // a guard that cannot be decided quickly is not a failure
+	if ob.Vacuity && cfg.TimeoutS > 2 {
+		cfg.TimeoutS = 2 // a guard that cannot be decided quickly is not a failure
+		if cfg.CrossCheck {
+			cfg.TimeoutS = 5
+		}
+		cfg.CrossCheck = false
 	}
 	to := time.Duration(cfg.TimeoutS) * time.Second
 	ctx, cancel := context.WithTimeout(context.Background(), to+2*time.Second)
@@ -332,6 +336,13 @@ func (p *Program) solveOne(ob *Obligation, cfg SolverCfg, idx int) {
 	t0 := time.Now()
 	started := 1
 	start("z3-new")
+	if ob.Vacuity {
+		r := <-results
+		ob.TimeS = time.Since(t0).Seconds()
+		ob.Verdict, ob.Solver = r.verdict, r.name
+		ob.SolverNotes = fmt.Sprintf("%s=%s(%.2fs)", r.name, r.verdict, r.dur)
+		return
+	}
 	var all []solverRun
 	var winner *solverRun
 	stage2 := time.After(1500 * time.Millisecond)
